@@ -21,7 +21,11 @@ def repo_dirty():
 
 def run_check(pid):
     t0 = time.time()
-    r = sh(f"/verif/check {pid} quick", timeout=1800)
+    # evidence and replay files of runs against a changed tree must never land in /verif
+    out = "/tmp/sens_out"
+    os.makedirs(out + "/evidence", exist_ok=True)
+    os.makedirs(out + "/replays", exist_ok=True)
+    r = sh(f"VERIF_OUT_ROOT={out} EXPSIM_OUT_ROOT={out} VERIF_C17_OUT={out} /verif/check {pid} quick", timeout=1800)
     viol = [l for l in r.stdout.splitlines() if l.startswith("VIOLATION")]
     oracles = sorted(set(l.split("oracle=")[1].split(" ")[0] for l in r.stdout.splitlines() if l.startswith("violation") and "oracle=" in l))
     return {"exit": r.returncode, "violations": len(viol), "oracles": oracles[:6], "wall_s": round(time.time() - t0, 1)}
